@@ -42,7 +42,7 @@ def run_case(c):
         R = np.array(c["r" if key == "r4" else key], dtype=float)
         try:
             if net is None:
-                net = ResNetwork(R.copy(), silence_level=3)
+                net = ResNetwork(enc.represent(R, c["case"])[0], silence_level=3)
                 events.append({"op": "construct", "key": key})
             elif key == "r4":
                 held[...] = R
